@@ -15,6 +15,7 @@ import PermuteVerif.Model.Sprt
 import PermuteVerif.Model.QA
 import PermuteVerif.Model.Incidence
 import PermuteVerif.Model.Experiment
+import PermuteVerif.Model.Prng
 open PV
 
 abbrev P := Except String
@@ -314,6 +315,15 @@ def handle (line : String) : P String := do
       | "ttest" => pure (showRes showRat (tfTTestKey e i))
       | "one_way_anova" => pure (showRat (tfOneWayAnova e i))
       | _ => fail s!"testfunc '{name}'"
+  | ["getprng", kind] => do
+      let k ← match kind with
+        | "none" => pure SeedArg.none | "nprandom" => pure SeedArg.npRandomModule | "number" => pure SeedArg.number
+        | "string" => pure SeedArg.string | "randomstate" => pure SeedArg.randomState | "sha256" => pure SeedArg.sha256
+        | "other" => pure SeedArg.other | _ => fail s!"seed kind '{kind}'"
+      let out := match getPrng k with
+        | .freshSHA256FromGlobalDraw => "fresh-sha256-from-global-draw" | .globalRandomState => "global-randomstate"
+        | .freshSHA256OfSeed => "fresh-sha256-of-seed" | .sameObject => "same-object" | .valueError => "ValueError"
+      pure s!"{out}|{if readsGlobalState k then 1 else 0}"
   | _ => fail "unknown operation"
 
 partial def loop (h : IO.FS.Stream) (out : IO.FS.Stream) : IO Unit := do
